@@ -10,7 +10,13 @@
 //   - no Allow is shed in an execution in which the CPU was never over the threshold;
 //   - an Allow shed with the CPU under the threshold needs an Allow that saw it over and an Allow
 //     that is shed (both begun before the shed one returned, or part of the pre-load);
-//   - an Allow is not shed when no other request can have been in flight during it.
+//   - an Allow is not shed when no other request can have been in flight during it (a request
+//     can be in flight only if it was admitted, from the start of its Allow to its resolution);
+//   - arrival scenarios (N = 2..3 threads calling Allow at once on a shedder that the sequential
+//     prefix left with NOTHING in flight, the moving average above the capacity estimate and the
+//     CPU over): nothing is in flight when the calls start, so whichever call is decided first
+//     must be admitted in any linearisation — an execution in which ALL N calls are shed is a
+//     violation [all-concurrent-allows-shed-with-nothing-in-flight].
 package main
 
 import (
@@ -37,11 +43,29 @@ type reqSpec struct {
 }
 
 type schedSpec struct {
-	name    string
-	preload string // fresh | lowcap-idle | lowcap-busy | hot
+	name string
+	// fresh | lowcap-idle | lowcap-busy | hot |
+	// drained-pass (20 admitted, +1 ns, all passed, +bucket: nothing in flight, average ≈ 5.47, capacity floor 1) |
+	// drained-fail (20 admitted, all failed: nothing in flight, average ≈ 5.47, no pass in the window)
+	preload string
 	reqs    []reqSpec
-	maxP    int  // > 0: cap on the preemption bound for this scenario (4 threads)
+	maxP    int  // > 0: the preemption bound of this scenario
 	drain   bool // a 4th thread resolves the two promises the pre-load left unfinished (Fail, then Pass)
+	hold    bool // request threads only call Allow; the main thread resolves what was admitted after they all returned
+	deep    bool // CPU threshold family "far above the threshold": overload factor pinned to 0.1
+	window  time.Duration
+	buckets int
+}
+
+func (sp schedSpec) cfg() (time.Duration, int, int64) {
+	w, b, th := schedWindow, schedBuckets, int64(cpuThreshold)
+	if sp.window > 0 {
+		w, b = sp.window, sp.buckets
+	}
+	if sp.deep {
+		th = cpuThresholdDeep
+	}
+	return w, b, th
 }
 
 type schedState struct {
@@ -54,6 +78,8 @@ type schedState struct {
 	preloadClass string
 	preShed      bool
 	preOver      bool
+	heldFlying   int64 // hold scenarios: in-flight counter after every held promise was resolved
+	refAvg       float64
 }
 
 const (
@@ -83,10 +109,37 @@ func schedBody(sp schedSpec) func() {
 			}
 			return over
 		})
-		s := load.NewAdaptiveShedder(load.WithWindow(schedWindow), load.WithBuckets(schedBuckets), load.WithCpuThreshold(cpuThreshold))
+		window, buckets, threshold := sp.cfg()
+		s := load.NewAdaptiveShedder(load.WithWindow(window), load.WithBuckets(buckets), load.WithCpuThreshold(threshold))
 		// ---- pre-load (main thread alone: deterministic) ----
 		var ps, kept []load.Promise
-		if sp.preload != "fresh" {
+		switch sp.preload {
+		case "fresh":
+		case "drained-pass", "drained-fail":
+			for i := 0; i < 20; i++ {
+				p, err := s.Allow()
+				if err != nil {
+					st.preloadClass, st.preloadErr = "sched-shed-cpu-never-over", fmt.Sprintf("pre-load: Allow #%d was shed although the CPU was never over the threshold", i+1)
+					vsched.SetUser(st)
+					return
+				}
+				ps = append(ps, p)
+			}
+			if sp.preload == "drained-pass" {
+				vsched.Advance(1)
+			}
+			for i, p := range ps { // the reference moving average: updated at every resolution
+				if sp.preload == "drained-pass" {
+					p.Pass()
+				} else {
+					p.Fail()
+				}
+				st.refAvg = st.refAvg*load.VerifFlyingBeta + float64(len(ps)-1-i)*(1-load.VerifFlyingBeta)
+			}
+			if sp.preload == "drained-pass" {
+				vsched.Advance(window / time.Duration(buckets))
+			}
+		default:
 			for i := 0; i < 12; i++ {
 				p, err := s.Allow()
 				if err != nil {
@@ -107,7 +160,7 @@ func schedBody(sp schedSpec) func() {
 			}
 			st.outstanding = keep
 			kept = ps[len(ps)-keep:]
-			vsched.Advance(schedWindow / schedBuckets)
+			vsched.Advance(window / time.Duration(buckets))
 			if sp.preload == "hot" {
 				st.mainOver = true
 				if _, err := s.Allow(); err == nil {
@@ -120,7 +173,7 @@ func schedBody(sp schedSpec) func() {
 			}
 		}
 		if f := load.VerifFlying(s); f != int64(st.outstanding) {
-			st.preloadClass, st.preloadErr = "sched-flying-leak", fmt.Sprintf("after the sequential pre-load (12 admitted, %d resolved) the in-flight counter is %d, expected %d", 12-st.outstanding, f, st.outstanding)
+			st.preloadClass, st.preloadErr = "sched-flying-leak", fmt.Sprintf("after the sequential pre-load (%d admitted, %d resolved) the in-flight counter is %d, expected %d", len(ps), len(ps)-st.outstanding, f, st.outstanding)
 			vsched.SetUser(st)
 			return
 		}
@@ -137,6 +190,7 @@ func schedBody(sp schedSpec) func() {
 				vsched.Log("dr 1")
 			})
 		}
+		held := make([]load.Promise, len(sp.reqs)) // slot i is written by request thread i only, read by main after wg.Wait
 		for i := range sp.reqs {
 			i := i
 			rq := sp.reqs[i]
@@ -154,6 +208,10 @@ func schedBody(sp schedSpec) func() {
 					return
 				}
 				vsched.Log("a %d", i)
+				if sp.hold {
+					held[i] = p
+					return
+				}
 				if rq.sleep > 0 {
 					vsched.TimeSleep(rq.sleep)
 				} else {
@@ -172,6 +230,19 @@ func schedBody(sp schedSpec) func() {
 		}
 		wg.Wait()
 		st.finalFlying = load.VerifFlying(s)
+		if sp.hold {
+			for i, p := range held {
+				if p == nil {
+					continue
+				}
+				if sp.reqs[i].pass {
+					p.Pass()
+				} else {
+					p.Fail()
+				}
+			}
+			st.heldFlying = load.VerifFlying(s)
+		}
 		vsched.SetUser(st)
 	}
 }
@@ -219,12 +290,32 @@ func schedCheck(sp schedSpec) func(e *vsched.Exec) vx.Verdict {
 				res[i] = f[0]
 			}
 		}
-		if st.finalFlying != int64(st.wantFinal) {
+		want := int64(st.wantFinal)
+		nShed := 0
+		for i := 0; i < n; i++ {
+			if res[i] == "a" && sp.hold {
+				want++ // admitted and held: still in flight when the request threads have returned
+			}
+			if res[i] == "s" {
+				nShed++
+			}
+		}
+		if st.finalFlying != want {
 			cls := "sched-flying-leak"
-			if st.finalFlying < int64(st.wantFinal) {
+			if st.finalFlying < want {
 				cls = "sched-flying-undercount"
 			}
-			return vx.Verdict{Class: cls, Msg: fmt.Sprintf("at quiescence the in-flight counter is %d; %d admitted-but-unfinished requests remain (every request thread resolved its promise; log %v)", st.finalFlying, st.wantFinal, e.Log())}
+			return vx.Verdict{Class: cls, Msg: fmt.Sprintf("at quiescence the in-flight counter is %d; %d admitted-but-unfinished requests remain (log %v)", st.finalFlying, want, e.Log())}
+		}
+		if sp.hold && st.heldFlying != int64(st.wantFinal) {
+			cls := "sched-flying-leak"
+			if st.heldFlying < int64(st.wantFinal) {
+				cls = "sched-flying-undercount"
+			}
+			return vx.Verdict{Class: cls, Msg: fmt.Sprintf("after the main thread resolved every admitted request the in-flight counter is %d; %d admitted-but-unfinished requests remain (log %v)", st.heldFlying, st.wantFinal, e.Log())}
+		}
+		if st.outstanding == 0 && n > 0 && nShed == n {
+			return vx.Verdict{Class: "all-concurrent-allows-shed-with-nothing-in-flight", Msg: fmt.Sprintf("nothing was in flight when the %d concurrent Allow calls started (the sequential prefix resolved everything it admitted), yet all %d were shed: whichever was decided first was shed with no admitted-but-unfinished request (log %v)", n, n, e.Log())}
 		}
 		before := func(a, b string) bool { // a logged before b (a must exist)
 			pa, ok := pos[a]
@@ -267,8 +358,8 @@ func schedCheck(sp schedSpec) func(e *vsched.Exec) vx.Verdict {
 					possible++
 				}
 			}
-			for a := 0; a < n; a++ {
-				if a != b && before(fmt.Sprintf("c %d", a), sb) && !doneBefore(fmt.Sprintf("d %d", a)) {
+			for a := 0; a < n; a++ { // only an admitted request is ever in flight: from somewhere in its Allow to its resolution
+				if a != b && res[a] == "a" && before(fmt.Sprintf("c %d", a), sb) && !doneBefore(fmt.Sprintf("d %d", a)) {
 					possible++
 				}
 			}
@@ -298,8 +389,30 @@ func scenarios(cfg *vlib.Config) []vx.Scenario {
 		{name: "hot-drain-uo", preload: "hot", drain: true, reqs: []reqSpec{{cpu: "under", pass: true}, {cpu: "over"}}},
 		{name: "idle-over-sleep", preload: "lowcap-idle", reqs: []reqSpec{{cpu: "over", pass: true, sleep: bucket}, {cpu: "over", pass: true}, {cpu: "under"}}},
 	}
+	// arrival family: N calls enter Allow together on a shedder with nothing in flight, the moving
+	// average still above the capacity estimate after a burst has drained, CPU over
+	over := func(n int) []reqSpec {
+		var r []reqSpec
+		for i := 0; i < n; i++ {
+			r = append(r, reqSpec{cpu: "over", pass: i%2 == 0})
+		}
+		return r
+	}
+	p3 := 3 // three simultaneous arrivals: one preemption more than the tier's default for the resolving scenarios
+	if cfg.Thorough() {
+		p3 = 4
+	}
+	specs = append(specs,
+		schedSpec{name: "arrive2-drained-pass", preload: "drained-pass", hold: true, reqs: over(2)},
+		schedSpec{name: "arrive3-drained-pass", preload: "drained-pass", hold: true, reqs: over(3), maxP: p3},
+		schedSpec{name: "arrive2-drained-fail", preload: "drained-fail", hold: true, reqs: over(2), window: 10 * time.Second, buckets: 10},
+		schedSpec{name: "arrive2-deep", preload: "drained-pass", hold: true, deep: true, reqs: over(2)},
+		schedSpec{name: "arrive3-deep-resolving", preload: "lowcap-idle", deep: true, reqs: []reqSpec{{cpu: "over", pass: true}, {cpu: "over"}, {cpu: "choice", pass: true}}},
+	)
 	if cfg.Thorough() {
 		specs = append(specs,
+			schedSpec{name: "arrive3-drained-fail", preload: "drained-fail", hold: true, reqs: over(3), window: 10 * time.Second, buckets: 10},
+			schedSpec{name: "arrive3-deep", preload: "drained-pass", hold: true, deep: true, reqs: over(3)},
 			schedSpec{name: "hot-drain-uuo", preload: "hot", drain: true, maxP: 2, reqs: []reqSpec{{cpu: "under", pass: true}, {cpu: "under"}, {cpu: "over", pass: true}}},
 			schedSpec{name: "hot-choice-fpf", preload: "hot", reqs: []reqSpec{{cpu: "choice"}, {cpu: "choice", pass: true}, {cpu: "choice"}}},
 			schedSpec{name: "busy-choice-ppp", preload: "lowcap-busy", reqs: []reqSpec{{cpu: "choice", pass: true}, {cpu: "choice", pass: true}, {cpu: "choice", pass: true}}},
